@@ -1,6 +1,6 @@
 import PPModel.Base.Sexp
 import PPModel.Mod.Diagram
-namespace PP.Driver
+namespace PP.Driver.DiagramD
 open PP PP.Sexp PP.Diagram
 
 /-
@@ -90,4 +90,8 @@ def diagramHandle : List Sexp → Option Sexp
       pure (.list [ofBool (rankedB g (fun u => rs.getD u 0)), ofNat (fuelBound g R)])
   | _ => none
 
+end PP.Driver.DiagramD
+
+namespace PP.Driver
+def diagramHandle := DiagramD.diagramHandle
 end PP.Driver
